@@ -1,6 +1,7 @@
 package main
 
 import (
+	"encoding/json"
 	"fmt"
 	"os"
 	"path/filepath"
@@ -134,7 +135,7 @@ func sizesB() int {
 }
 `
 
-func c03Targets() ([]target, []target) {
+func c03Targets(alphaOnly bool) ([]target, []target) {
 	// alphabet for the exact BFS: example files of checkers that keep scratch state between nodes,
 	// functions or files, plus two crafted packages and an empty file
 	pick := []string{
@@ -147,7 +148,14 @@ func c03Targets() ([]target, []target) {
 	}
 	var all, alpha []target
 	byID := map[string]target{}
+	need := map[string]bool{}
+	for _, id := range pick {
+		need[id[:strings.Index(id, "/")]] = true
+	}
 	for _, name := range harness.TestdataNames() {
+		if alphaOnly && !need[name] {
+			continue
+		}
 		pkgs, err := harness.LoadTestdata(name)
 		if err != nil {
 			continue
@@ -191,7 +199,136 @@ func visitTarget(s *harness.Set, t target, prevPkg **harness.Pkg) []string {
 	return out
 }
 
+// c03ChildResult is what a BFS shard process reports.
+type c03ChildResult struct {
+	States      int64                `json:"states"`
+	Transitions int64                `json:"transitions"`
+	Nontrivial  []string             `json:"nontrivial"`
+	Distinct    []string             `json:"distinct"`
+	Violations  []evidence.Violation `json:"violations"`
+}
+
+// seqAt maps an index to a history: all sequences of length 1..depth over n letters, shorter first,
+// lexicographic within a length.
+func seqAt(idx int64, n, depth int) []int {
+	pow := int64(n)
+	for l := 1; l <= depth; l++ {
+		if idx < pow {
+			seq := make([]int, l)
+			for k := l - 1; k >= 0; k-- {
+				seq[k] = int(idx % int64(n))
+				idx /= int64(n)
+			}
+			return seq
+		}
+		idx -= pow
+		pow *= int64(n)
+	}
+	return nil
+}
+
+func seqCount(n, depth int) int64 {
+	var total, pow int64 = 0, 1
+	for l := 1; l <= depth; l++ {
+		pow *= int64(n)
+		total += pow
+	}
+	return total
+}
+
+// c03Child explores histories [lo,hi) of one label in a process of its own: constructing a rule-based checker
+// loads a rule engine whose memory is not given back, so long enumerations are cut into short-lived shards.
+func c03Child(label, sdepth, slo, shi, out string) int {
+	var depth int
+	var lo, hi int64
+	fmt.Sscan(sdepth, &depth)
+	fmt.Sscan(slo, &lo)
+	fmt.Sscan(shi, &hi)
+	harness.Init()
+	infos := harness.Infos(nil)
+	harness.ApplyParams(infos, harness.TestParams)
+	var names []string
+	switch label {
+	case "rule-based":
+		for _, in := range infos {
+			if in.EmbeddedRuleguard {
+				names = append(names, in.Name)
+			}
+		}
+	case "user-rules":
+		enableUserRules()
+		names = []string{"ruleguard"}
+	default:
+		fmt.Fprintln(os.Stderr, "c03 child: unknown label", label)
+		return 2
+	}
+	alpha, _ := c03Targets(true)
+	fresh := func(t target) []string {
+		s, err := harness.NewSet(harness.Infos(names), "")
+		if err != nil {
+			panic(err)
+		}
+		var prev *harness.Pkg
+		return visitTarget(s, t, &prev)
+	}
+	ref := map[string][]string{}
+	var res c03ChildResult
+	distinct := map[string]bool{}
+	for idx := lo; idx < hi; idx++ {
+		seq := seqAt(idx, len(alpha), depth)
+		if seq == nil {
+			break
+		}
+		s, err := harness.NewSet(harness.Infos(names), "")
+		if err != nil {
+			panic(err)
+		}
+		var prev *harness.Pkg
+		var o []string
+		for _, i := range seq {
+			o = visitTarget(s, alpha[i], &prev)
+		}
+		last := alpha[seq[len(seq)-1]]
+		if _, ok := ref[last.id]; !ok {
+			ref[last.id] = fresh(last)
+		}
+		res.States++
+		res.Transitions += int64(len(seq))
+		distinct[label+"|"+last.id+"|"+strings.Join(o, "\n")] = true
+		if len(seq) > 1 {
+			res.Nontrivial = append(res.Nontrivial, fmt.Sprint(label, seq))
+		}
+		if !equalStrings(o, ref[last.id]) {
+			var hist []string
+			for _, i := range seq {
+				hist = append(hist, alpha[i].id)
+			}
+			ch := firstDiffChecker(o, ref[last.id])
+			res.Violations = append(res.Violations, evidence.Violation{
+				Key:      fmt.Sprintf("history|%s|%s", label, ch),
+				What:     fmt.Sprintf("diagnostics of %s for a file differ after a history of earlier visits from those of a fresh instance", ch),
+				Observed: fmt.Sprintf("history %v\nafter history: %v\nfresh:         %v", hist, diffOnly(o, ref[last.id]), diffOnly(ref[last.id], o)),
+				Replay:   map[string]interface{}{"kind": "history", "checkers": label, "history": hist},
+			})
+		}
+	}
+	for k := range distinct {
+		res.Distinct = append(res.Distinct, k)
+	}
+	data, _ := json.Marshal(res)
+	if err := os.WriteFile(out, data, 0o644); err != nil {
+		fmt.Fprintln(os.Stderr, err)
+		return 2
+	}
+	return 0
+}
+
 func c03(args []string) int {
+	// rule files import the ruleguard dsl package; it resolves through the harness module
+	os.Chdir(filepath.Join(evidence.Root, "mc"))
+	if len(args) >= 6 && args[0] == "--child" {
+		return c03Child(args[1], args[2], args[3], args[4], args[5])
+	}
 	ev := evidence.New("C03", "model_checking")
 	tier := evidence.Tier()
 	harness.Init()
@@ -201,11 +338,12 @@ func c03(args []string) int {
 	for _, in := range infos {
 		if in.EmbeddedRuleguard {
 			ruleNames = append(ruleNames, in.Name)
+			_ = ruleNames
 		} else {
 			handNames = append(handNames, in.Name)
 		}
 	}
-	alpha, all := c03Targets()
+	alpha, all := c03Targets(false)
 	ev.Set("alphabet", func() []string {
 		var s []string
 		for _, t := range alpha {
@@ -270,6 +408,11 @@ func c03(args []string) int {
 					states++
 					transitions += int64(len(j.seq))
 					distinctOut[label+"|"+last.id+"|"+strings.Join(out, "\n")] = true
+					if os.Getenv("VERIF_DEBUG") != "" && states%2000 == 0 {
+						var ms runtime.MemStats
+						runtime.ReadMemStats(&ms)
+						fmt.Fprintf(os.Stderr, "c03 mem: %s states=%d heapInuse=%dMB sys=%dMB numGC=%d\n", label, states, ms.HeapInuse>>20, ms.Sys>>20, ms.NumGC)
+					}
 					mu.Unlock()
 					ev.Eval(1)
 					if len(j.seq) > 1 {
@@ -307,16 +450,80 @@ func c03(args []string) int {
 		close(jobs)
 		wg.Wait()
 	}
+	// the same exploration in short-lived shard processes (labels whose checkers load a rule engine on construction)
+	bfsSharded := func(label string, depth int) bool {
+		total := seqCount(len(alpha), depth)
+		per := total / int64(3*runtime.GOMAXPROCS(0))
+		if per < 12 {
+			per = 12
+		}
+		if per > 150 {
+			per = 150
+		}
+		type shard struct{ lo, hi int64 }
+		var shards []shard
+		for lo := int64(0); lo < total; lo += per {
+			hi := lo + per
+			if hi > total {
+				hi = total
+			}
+			shards = append(shards, shard{lo, hi})
+		}
+		var wg sync.WaitGroup
+		sem := make(chan struct{}, runtime.GOMAXPROCS(0))
+		var failed []string
+		for si, sh := range shards {
+			wg.Add(1)
+			sem <- struct{}{}
+			go func(si int, sh shard) {
+				defer wg.Done()
+				defer func() { <-sem }()
+				out := filepath.Join(harness.WorkDir(), fmt.Sprintf("c03-%s-%d.json", label, si))
+				res := harness.RunCmd(filepath.Join(evidence.Root, "mc"), append(os.Environ(), "VERIF_CHILD=1", "GOMAXPROCS=2"), 60*time.Minute, os.Args[0], "C03", "--child", label, fmt.Sprint(depth), fmt.Sprint(sh.lo), fmt.Sprint(sh.hi), out)
+				var r c03ChildResult
+				data, err := os.ReadFile(out)
+				os.Remove(out)
+				mu.Lock()
+				defer mu.Unlock()
+				if res.Exit != 0 || err != nil || json.Unmarshal(data, &r) != nil {
+					failed = append(failed, fmt.Sprintf("shard %d exit=%d: %s", si, res.Exit, tail([]byte(res.Stderr), 1200)))
+					return
+				}
+				states += r.States
+				transitions += r.Transitions
+				ev.Eval(int(r.States))
+				for _, id := range r.Nontrivial {
+					ev.Nontrivial(id)
+				}
+				for _, d := range r.Distinct {
+					distinctOut[d] = true
+				}
+				for _, v := range r.Violations {
+					ev.Violate(v)
+				}
+			}(si, sh)
+		}
+		wg.Wait()
+		if len(failed) > 0 {
+			fmt.Fprintln(os.Stderr, "C03 shard failed (broken check):", failed[0])
+			return false
+		}
+		return true
+	}
 	hd, rd := 3, 2
 	if tier == "thorough" {
 		hd, rd = 4, 3
 	}
 	bfs("hand-written", handNames, hd)
-	bfs("rule-based", ruleNames, rd)
+	if !bfsSharded("rule-based", rd) {
+		return 2
+	}
 	// from here on the dynamic-rules checker runs user rules of every filter kind (package-, file- and
 	// version-dependent ones included); constructing it loads the rule file, so its histories are explored apart
+	if !bfsSharded("user-rules", rd) {
+		return 2
+	}
 	enableUserRules()
-	bfs("user-rules", []string{"ruleguard"}, rd)
 	var handNoRG []string
 	for _, n := range handNames {
 		if n != "ruleguard" {
